@@ -92,7 +92,8 @@ def run_one(sh, case, driver='generated'):
         try:
             with quiet():
                 if api == 'func':
-                    res = compute_features_2d(np.array(sigs, copy=True), fs, f_range, compute_features_kwargs=copy.deepcopy(kw),
+                    arr = np.asfortranarray(sigs) if case.get('layout') == 'F' else np.array(sigs, copy=True)
+                    res = compute_features_2d(arr, fs, f_range, compute_features_kwargs=copy.deepcopy(kw),
                                               axis=0, return_samples=rs, n_jobs=case['n_jobs'], progress=case['progress'])
                 else:
                     o = copy.deepcopy(kw) or {}
@@ -192,7 +193,7 @@ def make_case(rng, n, order=None, n_jobs=None, api='func'):
         n_jobs = int(rng.choice([1, 2, 3, n, n + 3, -1]))
     return dict(sigs=sigs, fs=fs, f_range=(lo, hi), kwargs=kw, return_samples=bool(rng.random() < 0.7),
                 n_jobs=n_jobs, progress=[None, None, 'tqdm', 'tqdm.notebook'][int(rng.integers(0, 4))],
-                delays=delays, api=api, fake_tqdm=bool(rng.random() < 0.5))
+                delays=delays, api=api, fake_tqdm=bool(rng.random() < 0.5), layout=['C', 'C', 'F'][int(rng.integers(0, 3))])
 
 
 def run(sh):
